@@ -62,7 +62,7 @@ PROPS = {
                     'combinatorial streams; user callbacks are an uninterpreted function of (callee, arguments), effects not modelled',
     ),
     'C10': dict(
-        units=['index', 'streamdef'], kani='thorough',
+        units=['index', 'streamdef', 'rangeu'], kani='thorough',
         not_covered='set_index, the take/drop/... builtins that call these kernels, Stream::pythonic_slice, overrides of the stream methods other than Cycle\'s',
     ),
 }
